@@ -168,8 +168,8 @@ class RlaGetSlice(Family):
     qualname = "npstructures.runlengtharray:RunLengthArray._get_slice"
     serves = ["C15", "C14"]
     assumed = ["builtin slice.indices = CPython's PySlice_AdjustIndices (spec function pyslice, audited)",
-               "callee contract RunLengthArray._start_to_end(start, end): the sub-array [start, end) (bounded stand-in)",
-               "callee contract RunLengthArray._step_subset(step): every |step|-th element, reversed for step < 0 (bounded stand-in)"]
+               "callee contract RunLengthArray._start_to_end(start, end): the sub-array [start, end) (proved: RunLengthArray._start_to_end)",
+               "callee contract RunLengthArray._step_subset(step): every |step|-th element, reversed for step < 0 (proved: RunLengthArray._step_subset)"]
 
     def kinds(self):
         return SL_KINDS
@@ -552,6 +552,30 @@ class RlaConcatenate(Family):
     bounded_cases = RlaUfunc.bounded_cases
 
 
+def contract_remove_empty(E, V, k, e2, v2, k2, rho, src):
+    """caller-visible contract of remove_empty_intervals(E[0..k], V[0..k-1]) -> (e2[0..k2], v2[0..k2-1]);
+    rho: kept input run -> output run, src: output run -> input run.  Proved in RlaRemoveEmpty, assumed by callers' stubs."""
+    ground = [k2 >= 0, e2(k2) == E(k), e2(0) == E(0)]
+    A = lambda i: z3.Implies(z3.And(0 <= i, i < k, E(i) != E(i + 1)),
+                             z3.And(0 <= rho(i), rho(i) < k2, v2(rho(i)) == V(i), e2(rho(i)) == E(i), e2(rho(i) + 1) == E(i + 1)))
+    B = lambda u: z3.Implies(z3.And(0 <= u, u < k2), z3.And(0 <= src(u), src(u) < k, E(src(u)) != E(src(u) + 1), rho(src(u)) == u))
+    return ground, [("remove_empty.kept-runs", A, 1), ("remove_empty.output-runs", B, 1)]
+
+
+def contract_join_runs(E, V, k, e3, v3, k3, sigma, head):
+    """caller-visible contract of join_runs(E[0..k], V[0..k-1]) (requires k >= 1 and E strictly increasing) -> (e3[0..k3], v3[0..k3-1]);
+    sigma: input run -> output run containing it, head: input run -> first run of its ==-chain."""
+    EQ = lambda x, y: apply_binary("equal", x, y)
+    ground = [k3 >= 1, e3(0) == E(0), e3(k3) == E(k)]
+    A = lambda i: z3.Implies(z3.And(0 <= i, i < k),
+                             z3.And(0 <= sigma(i), sigma(i) < k3, 0 <= head(i), head(i) <= i, v3(sigma(i)) == V(head(i)),
+                                    e3(sigma(i)) <= E(i), E(i + 1) <= e3(sigma(i) + 1)))
+    A2 = lambda i, j: z3.Implies(z3.And(0 <= i, i < k, head(i) < j, j <= i), EQ(V(j), V(j - 1)))
+    B = lambda u: z3.Implies(z3.And(0 <= u, u < k3), e3(u) < e3(u + 1))
+    B2 = lambda u: z3.Implies(z3.And(0 <= u, u + 1 < k3), z3.Not(EQ(v3(u + 1), v3(u))))
+    return ground, [("join_runs.covering", A, 1), ("join_runs.chain", A2, 2), ("join_runs.increasing", B, 1), ("join_runs.adjacent-differ", B2, 1)]
+
+
 def _eq_is_transitive_symmetric(ctx, terms):
     """numpy's == within one dtype (integer equality / IEEE equality) is symmetric and transitive (not reflexive: NaN).
     Stated for the abstract relation U_equal at the given element terms (assumption, listed in `assumed`)."""
@@ -612,6 +636,15 @@ class RlaRemoveEmpty(Family):
         ctx.skolem(z3.And(0 <= u, u < k2))
         ctx.prove("post.every output run is a non-empty input run", z3.And(0 <= pos(u), pos(u) < k, E(pos(u)) != E(pos(u) + 1), rk(pos(u)) == u),
                   pool=[u, u + 1, pos(u), pos(u) + 1, k, k + 1])
+        # the first boundary VALUE is kept (the boundaries before the first kept one are all equal to it)
+        Z = z3.IntVal(0)
+        c0 = w(Z, pos(Z))
+        ctx.prove("post.first boundary value kept", e2.get(0) == E(0), pool=[Z, z3.IntVal(1), pos(Z), pos(Z) + 1, c0, c0 + 1, rk(c0), rk(c0 + 1), rk(pos(Z)), k, k + 1, k2, rk(k)])
+        # the contract as callers use it (same formulas as assumed by their stubs)
+        ground, schemas = contract_remove_empty(E, V, k, e2.get, v2.get, k2, rk, pos)
+        ctx.prove("contract.ground facts", z3.And(*ground), pool=[Z, z3.IntVal(1), pos(Z), pos(Z) + 1, c0, c0 + 1, rk(c0), rk(c0 + 1), rk(pos(Z)), k, k + 1, k2, k2 + 1, rk(k), pos(k2)])
+        ctx.prove("contract." + schemas[0][0], schemas[0][1](i), pool=pool)
+        ctx.prove("contract." + schemas[1][0], schemas[1][1](u), pool=[u, u + 1, pos(u), pos(u) + 1, k, k + 1])
         ctx.prove("post.inputs not modified", z3.BoolVal(ev.buf.writes == 0 and va.buf.writes == 0))
 
     def concrete(self, case):
@@ -698,6 +731,17 @@ class RlaJoinRuns(Family):
         ctx.prove("adjacent.chain.step: C(b) => C(b+1)", z3.Implies(z3.And(hu < b, EQ(V(hu), V(b))), EQ(V(hu), V(b + 1))), pool=pl)
         ctx.assume_forall("chain (by the induction above)", lambda b_: z3.Implies(z3.And(hu < b_, b_ < hn), EQ(V(hu), V(b_))))
         ctx.prove("post.adjacent output runs differ (numpy ==)", z3.Not(EQ(v3.get(u + 1), v3.get(u))), pool=pl)
+        # the contract as callers use it (same formulas as assumed by their stubs): sigma(i) = rank(i+1)-1, head(i) = pos(sigma(i))
+        sigma = lambda x: rk(x + 1) - 1
+        head = lambda x: pos(rk(x + 1) - 1)
+        ground, schemas = contract_join_runs(E, V, k, e3.get, v3.get, k3, sigma, head)
+        ctx.prove("contract.ground facts", z3.And(*ground), pool=base)
+        ctx.prove("contract." + schemas[0][0], schemas[0][1](i), pool=pool)
+        ctx.prove("contract." + schemas[1][0], schemas[1][1](i, j), pool=pool + [j, j + 1, j - 1, rk(j), rk(j + 1)])
+        u2 = z3.Int("u2")
+        ctx.skolem(z3.And(0 <= u2, u2 < k3))
+        ctx.prove("contract." + schemas[2][0], schemas[2][1](u2), pool=[u2, u2 + 1, pos(u2), pos(u2) + 1, pos(u2 + 1), pos(u2 + 1) + 1, k, k + 1, k3, k3 + 1, rk(k), rk(k + 1)])
+        ctx.prove("contract." + schemas[3][0], schemas[3][1](u), pool=pl)
         ctx.prove("post.inputs not modified", z3.BoolVal(ev.buf.writes == 0 and va.buf.writes == 0))
 
     def concrete(self, case):
@@ -716,3 +760,177 @@ class RlaJoinRuns(Family):
         for k in range(1, 6):
             for v in itertools.product((1, 2), repeat=k):
                 yield {"events": list(range(0, 2 * k + 1, 2)), "values": list(v)}
+
+
+def _stub_remove_empty(calls):
+    def stub(events, values):
+        c = cur()
+        k = dim_term(values.shape_[0])
+        c.prove("pre(remove_empty_intervals): len(events)==len(values)+1", dim_term(events.shape_[0]) == k + 1, kind="pre")
+        k2 = z3.Int(fresh_name("k2"))
+        e2 = SymArr.symbolic("e2", k2 + 1, "int", events.dtype, assume_len=False)
+        v2 = SymArr.symbolic("v2", k2, values.kind, values.dtype, assume_len=False)
+        rho = z3.Function(fresh_name("rho"), z3.IntSort(), z3.IntSort())
+        src = z3.Function(fresh_name("src"), z3.IntSort(), z3.IntSort())
+        E, V = events.snapshot(), values.snapshot()
+        ground, schemas = contract_remove_empty(E, V, k, e2.fn, v2.fn, k2, rho, src)
+        for g in ground:
+            c.assume(g)
+        for nm, fn, ar in schemas:
+            c.assume_forall(nm, fn, arity=ar)
+        c.add_index(k2, k2 - 1, k2 + 1)
+        calls["remove_empty"] = dict(E=E, V=V, k=k, e2=e2, v2=v2, k2=k2, rho=rho, src=src)
+        if "after_remove_empty" in calls:
+            calls["after_remove_empty"](calls["remove_empty"])
+        return e2, v2
+    return stub
+
+
+def _stub_join_runs(calls):
+    def stub(events, values):
+        c = cur()
+        k = dim_term(values.shape_[0])
+        E, V = events.snapshot(), values.snapshot()
+        x = z3.Int(fresh_name("jr_i"))
+        c.prove("pre(join_runs): len(events)==len(values)+1 and at least one run", z3.And(dim_term(events.shape_[0]) == k + 1, k >= 1), kind="pre",
+                pool=calls.get("pool_for_join_pre_len", lambda: None)())
+        c.prove("pre(join_runs): boundaries strictly increasing", z3.Implies(z3.And(0 <= x, x < k), E(x) < E(x + 1)), kind="pre",
+                pool=[x, x + 1] + calls.get("pool_for_join_pre", lambda x_: [])(x))
+        k3 = z3.Int(fresh_name("k3"))
+        e3 = SymArr.symbolic("e3", k3 + 1, "int", events.dtype, assume_len=False)
+        v3 = SymArr.symbolic("v3", k3, values.kind, values.dtype, assume_len=False)
+        sigma = z3.Function(fresh_name("sigma"), z3.IntSort(), z3.IntSort())
+        head = z3.Function(fresh_name("head"), z3.IntSort(), z3.IntSort())
+        ground, schemas = contract_join_runs(E, V, k, e3.fn, v3.fn, k3, sigma, head)
+        for g in ground:
+            c.assume(g)
+        for nm, fn, ar in schemas:
+            c.assume_forall(nm, fn, arity=ar)
+        c.add_index(k3, k3 - 1, k3 + 1)
+        calls["join_runs"] = dict(E=E, V=V, k=k, e3=e3, v3=v3, k3=k3, sigma=sigma, head=head)
+        return e3, v3
+    return stub
+
+
+@register
+class RlaStepSubset(Family):
+    """_step_subset(step) on a canonical array of length N (step != 0, |step| = s symbolic): the result has ceil(N/s) positions and
+    position q holds the value of source position q*s (step > 0) or N-1-q*s (step < 0), up to numpy ==; the result is canonical.
+    q*s is written MUL(q) and // s is DIV (factored floor division, see sym.arr.div_abstraction); remove_empty_intervals and
+    join_runs enter through their proved contracts."""
+    name = "RunLengthArray._step_subset"
+    qualname = "npstructures.runlengtharray:RunLengthArray._step_subset"
+    serves = ["C15", "C14"]
+    timeout_ms = 60000
+    assumed = ["floor division by s > 0 in factored form: MUL(a // s) <= a < MUL(a // s + 1), MUL(0) = 0, MUL(x+1) = MUL(x) + s (MUL(x) stands for x*s)",
+               "callee contract remove_empty_intervals (proved: RunLengthArray.remove_empty_intervals/contract.*)",
+               "callee contract join_runs (proved: RunLengthArray.join_runs/contract.*)",
+               "numpy == within one dtype is symmetric and transitive (at the element terms of one ==-chain)"]
+
+    def kinds(self):
+        return ["forward", "backward"]
+
+    def extra_functions(self):
+        return ["RunLengthArray.__init__"]
+
+    def run(self, ctx, kind):
+        from npstructures.runlengtharray import RunLengthArray
+        from ..sym.arr import div_abstraction
+        a = sym_rla(ctx)
+        m, E, V, n = a.m, a.E, a.V, a.n
+        step = z3.Int("step")
+        ctx.assume(step > 0 if kind == "forward" else step < 0)
+        s = z3.simplify(abs(SInt(step)).t)
+        DIV, MUL = div_abstraction(ctx, s)
+        # lemma (induction on d): MUL is strictly increasing
+        x, d = z3.Int("x"), z3.Int("d")
+        ctx.prove("lemma.MUL increasing.base: MUL(x) < MUL(x+1)", MUL(x) < MUL(x + 1), pool=[x, x + 1], kind="lemma")
+        ctx.prove("lemma.MUL increasing.step", z3.Implies(z3.And(d >= 0, MUL(x) < MUL(x + d + 1)), MUL(x) < MUL(x + d + 2)),
+                  pool=[x, x + d + 1, x + d + 2], kind="lemma")
+        ctx.assume_forall("MUL increasing (by the induction above)", lambda p_, q_: z3.Implies(p_ < q_, MUL(p_) < MUL(q_)), arity=2)
+        calls = {}
+        old = RunLengthArray.__dict__["remove_empty_intervals"], RunLengthArray.__dict__["join_runs"]
+        RunLengthArray.remove_empty_intervals = staticmethod(_stub_remove_empty(calls))
+        RunLengthArray.join_runs = staticmethod(_stub_join_runs(calls))
+
+        def pool_for_join_pre(x_):
+            re = calls["remove_empty"]
+            sx = re["src"](x_)
+            return [sx, sx + 1, re["rho"](sx), re["rho"](sx) + 1, re["k2"], re["k"]]
+        calls["pool_for_join_pre"] = pool_for_join_pre
+
+        def pool_for_join_pre_len():
+            # at least one run survives: the divided boundaries start at (s-1)//s = 0 and end at (N+s-1)//s >= 1
+            re = calls["remove_empty"]
+            first, last = re["E"](z3.IntVal(0)), re["E"](m)
+            return [z3.IntVal(0), z3.IntVal(1), m, re["k2"], first, first + 1, last, last + 1, first.arg(0), last.arg(0)]
+        calls["pool_for_join_pre_len"] = pool_for_join_pre_len
+
+        def after_remove_empty(re):
+            # lemma: the divided boundaries I(i) = ceil(B(i)/s) are non-decreasing (B increasing, floor division monotone)
+            y = z3.Int("y")
+            a0, a1 = re["E"](y), re["E"](y + 1)
+            ctx.prove("lemma.divided boundaries are non-decreasing", z3.Implies(z3.And(0 <= y, y < m), a0 <= a1), kind="lemma",
+                      pool=[y, y + 1, a0, a0 + 1, a1, a1 + 1, a0.arg(0), a1.arg(0), m - y, m - y - 1, m - y + 1, m])
+            ctx.assume_forall("divided boundaries non-decreasing (lemma)", lambda y_: z3.Implies(z3.And(0 <= y_, y_ < m), re["E"](y_) <= re["E"](y_ + 1)))
+        calls["after_remove_empty"] = after_remove_empty
+        # the divided boundaries are non-decreasing (needed for the callee precondition): I(i) <= I(i+1) - instances supplied below
+        ctx.ghost["calls"] = calls
+        ctx.add_index(m, m - 1, m + 1, z3.IntVal(0), z3.IntVal(1))
+        try:
+            out = a.obj._step_subset(SInt(step))
+        finally:
+            RunLengthArray.remove_empty_intervals, RunLengthArray.join_runs = old
+        re, jr = calls["remove_empty"], calls["join_runs"]
+        Iv, W, e1, v1, k2, rho = re["E"], re["V"], re["e2"].fn, re["v2"].fn, re["k2"], re["rho"]
+        e3, v3, k3, sigma, head = jr["e3"].fn, jr["v3"].fn, jr["k3"], jr["sigma"], jr["head"]
+        EQ = lambda p_, q_: apply_binary("equal", p_, q_)
+        ctx.prove("post.result is built from join_runs' output", z3.BoolVal(out._events is jr["e3"] and out._values is jr["v3"]))
+        ctx.prove("post.len == ceil(N/s):  events'[-1] == (N + s - 1) // s", e3(k3) == DIV(n + s - 1), pool=[m, m + 1, k2, k3, z3.IntVal(0)])
+        q, u = z3.Int("q"), z3.Int("u")
+        srcpos = MUL(q) if kind == "forward" else n - 1 - MUL(q)
+        ctx.skolem(z3.And(q >= 0, 0 <= u, u < m, E(u) <= srcpos, srcpos < E(u + 1)))
+        i = u if kind == "forward" else m - 1 - u
+        lo_, hi_ = Iv(i), Iv(i + 1)
+        r1 = rho(i)
+        t = sigma(r1)
+        h = head(r1)
+        pool = [q, q + 1, u, u + 1, i, i + 1, m, m - 1, m + 1, m - u, m - u - 1, lo_, lo_ + 1, hi_, hi_ + 1, lo_.arg(0), hi_.arg(0), r1, r1 + 1, t, t + 1, h,
+                k2, k3, z3.IntVal(0), z3.IntVal(1)]
+        small = [q, q + 1, u, u + 1, i, i + 1, m, m - u, m - u - 1, lo_, lo_ + 1, hi_, hi_ + 1, lo_.arg(0), hi_.arg(0)]
+        ctx.prove_then_assume("post.lemma: the divided run i is [ceil(B(i)/s), ceil(B(i+1)/s)) and contains q", z3.And(lo_ <= q, q < hi_), pool=small)
+        ctx.prove_then_assume("post.lemma: run i survives remove_empty_intervals with its value and bounds",
+                              z3.And(0 <= r1, r1 < k2, e1(r1) == lo_, e1(r1 + 1) == hi_, v1(r1) == V(u)), pool=[u, u + 1, i, i + 1, m, m - u, m - u - 1], live=[q])
+        ctx.prove("post.position q lies in output run t", z3.And(0 <= t, t < k3, e3(t) <= q, q < e3(t + 1)), pool=pool)
+        ctx.prove_then_assume("post.lemma: output run t carries the value of the chain head h <= r1", z3.And(v3(t) == v1(h), 0 <= h, h <= r1), pool=pool, live=[q])
+        # ==-chain from h to r1 (induction on j): v1(h) ~ v1(j), ~ being identity or numpy ==
+        j = z3.Int("j")
+        sim = lambda p_, q_: z3.Or(p_ == q_, EQ(p_, q_))
+        ctx.skolem(z3.And(h <= j, j < r1))
+        _eq_is_transitive_symmetric(ctx, [v1(h), v1(j), v1(j + 1)])
+        ctx.prove("chain.step: v1(h) ~ v1(j) => v1(h) ~ v1(j+1)", z3.Implies(sim(v1(h), v1(j)), sim(v1(h), v1(j + 1))), pool=pool + [j, j + 1, j - 1], live=[q, u])
+        ctx.assume_forall("chain (by induction on j; base j = h is reflexivity of ~)", lambda j_: z3.Implies(z3.And(h <= j_, j_ <= r1), sim(v1(h), v1(j_))))
+        ctx.prove("post.output value at q ~ source value at q*s (resp. N-1-q*s)", sim(v3(t), V(u)), pool=pool, live=[q])
+        ctx.prove("post.operand not modified", z3.BoolVal(a.ev.buf.writes == 0 and a.va.buf.writes == 0))
+
+    def concrete(self, case):
+        from npstructures import RunLengthArray
+        x = np.array(case["a"])
+        r = RunLengthArray.from_array(x)
+        st = case["step"]
+        got = r._step_subset(st)
+        exp = x[::st]
+        ev, va = np.asarray(got._events), np.asarray(got._values)
+        if np.asarray(got).tolist() != exp.tolist() or not np.all(va[1:] != va[:-1]) or not np.all(np.diff(ev) > 0):
+            return {"msg": f"_step_subset({st}) on {case['a']}: {np.asarray(got).tolist()} (events {ev.tolist()} values {va.tolist()}), numpy {exp.tolist()}",
+                    "sig": "wrong:rla-step_subset"}
+
+    def concretise(self, kind, model, ghost):
+        return {"a": [1, 1, 2, 3, 3, 3, 1, 1], "step": 3 if kind == "forward" else -3}
+
+    def bounded_cases(self, tier, seed):
+        import itertools
+        for nn in range(1, 7):
+            for v in itertools.product((1, 2), repeat=nn):
+                for st in (1, 2, 3, 4, 7, -1, -2, -3, -5):
+                    yield {"a": list(v), "step": st}
